@@ -758,6 +758,73 @@ func (c *Ctx) scopeAndRef(rule string) {
 		if n == 0 {
 			c.R.Bad(rule, k, c.M.Pos(fn.Pos()), "reference is never linked", "")
 		}
+		// ... and a failed lookup does not leave the link of an earlier application standing: linking runs again
+		// whenever a namespace is applied (and one object may sit in several scopes), so where the function comes back
+		// normally with the object not found, it has written the link (cleared it). ValidateReferences and ObjectReady
+		// read the link, not the table.
+		k2 := key(rule, "schema.RefSchema.ApplyNamespace", "a failed lookup never leaves the old link standing")
+		stale := ""
+		for _, g := range group {
+			if g.Signature.Results().Len() != 0 {
+				continue // a finder that hands (object, found) to its caller: the caller decides
+			}
+			var oks []ssa.Value
+			for _, b := range g.Blocks {
+				for _, in := range b.Instrs {
+					if lk, ok := in.(*ssa.Lookup); ok && lk.CommaOk && lk.Referrers() != nil {
+						if mt, isMap := lk.X.Type().Underlying().(*types.Map); isMap && isNamedPtr(mt.Elem(), "ObjectSchema") {
+							for _, r := range *lk.Referrers() {
+								if ex, isEx := r.(*ssa.Extract); isEx && ex.Index == 1 {
+									oks = append(oks, ex)
+								}
+							}
+						}
+					}
+				}
+			}
+			for _, r := range core.ReturnsOf(g) {
+				notFound := false
+				for _, cond := range r.Conds() {
+					for _, okv := range oks {
+						if core.Unwrap(cond.V) == okv && !cond.True && cond.Via == nil {
+							notFound = true
+						}
+					}
+				}
+				if !notFound {
+					continue
+				}
+				// a store into a field of the receiver on the way
+				written := false
+				for _, b := range g.Blocks {
+					if !(b == r.Block() || b.Dominates(r.Block())) {
+						continue
+					}
+					for _, in := range b.Instrs {
+						if st, ok := in.(*ssa.Store); ok {
+							if fa, ok := st.Addr.(*ssa.FieldAddr); ok && c.M.ValPath(fa.X) == g.Params[0].Name() {
+								for _, cond := range core.CondsAt(b) {
+									for _, okv := range oks {
+										if core.Unwrap(cond.V) == okv && !cond.True {
+											written = true
+										}
+									}
+								}
+							}
+						}
+					}
+				}
+				if !written && stale == "" {
+					stale = c.M.InstrPos(r.Return)
+				}
+			}
+		}
+		if stale == "" {
+			c.R.Ok(rule, k2, c.M.Pos(fn.Pos()), "link of a reference", "no normal way out with the object not found (it panics), or the link is written on that way")
+		} else {
+			c.R.Bad(rule, k2, stale, "a reference whose object is missing from the applied table keeps the link it had",
+				"linking is repeated on every application of a namespace: the reference goes on denoting the object of the previous table, ValidateReferences and ObjectReady (which read the link) report it as linked, and the scope keeps accepting the old object's values")
+		}
 	}
 	if fn := c.fn(rule, "schema.RefSchema.ValidateReferences"); fn != nil {
 		k := key(rule, "schema.RefSchema.ValidateReferences", "nil iff linked")
